@@ -6,17 +6,21 @@ from vlib.mirsmt import I, B, S, E, Path, Panic, Opaque
 
 ID = 'C16'
 LEVEL = 'model_checking'
-TECHNIQUE = 'symbolic execution of rustc MIR (whirlpool + spl-token-2022 dependency) into integer SMT, z3 5.1'
+TECHNIQUE = ('symbolic execution of rustc MIR (whirlpool + spl-token-2022 dependency) into integer SMT, z3 5.1; '
+             'Kani/CBMC on the compiled code for the schedule choice (get_epoch_transfer_fee and the Pinocchio path on real mint images, symbolic older/newer TransferFee and clock epoch)')
 FUNCTIONS = ['util::v2::token::calculate_transfer_fee_excluded_amount', 'util::v2::token::calculate_transfer_fee_included_amount',
              'pinocchio::ported::util_token::pino_calculate_transfer_fee_excluded_amount / _included_amount',
              'spl_token_2022::extension::transfer_fee::TransferFee::{calculate_fee, calculate_pre_fee_amount, calculate_inverse_fee, ceil_div}',
-             'instructions::v2::swap::swap_with_transfer_fee_extension']
-BOUNDS = ['loop-free; all u64 amounts, basis points 0..=10000, any maximum fee, any epoch schedule (the selected TransferFee is an arbitrary value)']
+             'instructions::v2::swap::swap_with_transfer_fee_extension',
+             'util::v2::token::get_epoch_transfer_fee; pinocchio pino_calculate_transfer_fee_excluded_amount -> load_token_program_account_unchecked, parse_token_extensions, pino_get_epoch_transfer_fee (k/src/c16.rs)',
+             'pinocchio::instructions::{increase,decrease}_liquidity_v2 / increase_liquidity_by_token_amounts_v2 / reposition_liquidity_v2 handlers (handler mode: which amount is converted, maxima/minima placement)']
+BOUNDS = ['K epoch choice: 278-byte mint image with ONE TLV entry at a fixed position (length pinned to 108), entry type number, both (epoch, maximum_fee, bps) triples, owner (SPL Token / Token-2022) and clock epoch symbolic; unwind 4',
+          'loop-free; all u64 amounts, basis points 0..=10000, any maximum fee, any epoch schedule (the selected TransferFee is an arbitrary value)']
 ASSUMPTIONS = ['the Token-2022 processor withholds exactly TransferFee::calculate_fee(amount) (its own MIR is executed, the processor is not)',
                'transfer_fee_basis_points <= 10000 (enforced by Token-2022 when the fee is set)',
-               'get_epoch_transfer_fee / pino_get_epoch_transfer_fee return an arbitrary Option<TransferFee> (TLV parsing is compared by Kani)',
+               'Engine M: get_epoch_transfer_fee / pino_get_epoch_transfer_fee return an arbitrary Option<TransferFee>; WHICH schedule they select is decided by the Kani harnesses (Clock::get stubbed to a symbolic epoch; TransferFee::calculate_fee replaced by a recording stub in the Pinocchio harness)',
                'in swap_with_transfer_fee_extension the callee `swap` is an arbitrary PostSwapUpdate constrained by the C03 contract (never more than specified in exact-in / out exact-out)']
-OUTSIDE = ['liquidity increase/decrease/reposition handler glue (Pinocchio handlers stop at the sysvar stub)', 'event fields']
+OUTSIDE = ['multi-entry TLV walks in the epoch-choice harnesses (C19 decides the TLV walk), Err from Clock::get', 'event fields']
 EXPLANATION = 'fee inversion exact and minimal; conversions placed on the right amounts in the v2 swap wrapper'
 
 U64 = 2**64 - 1
